@@ -573,6 +573,13 @@ func (e *End) Send(p []byte) {
 	if len(p) == 0 {
 		return
 	}
+	if dumpNet {
+		q := p
+		if len(q) > 400 {
+			q = q[:400]
+		}
+		fmt.Fprintf(os.Stderr, "%s S %q\n", e.Name(), q)
+	}
 	mu := &e.conn.n.mu
 	mu.Lock()
 	if e.rerr == nil && !e.closed {
